@@ -317,7 +317,6 @@ func shortPos(s string) string {
 	return strings.TrimPrefix(s, "/repo/")
 }
 
-
 // loadAnchors reads the anchor files of every property from properties.jsonl.
 func loadAnchors(path string) map[string]map[string]bool {
 	out := map[string]map[string]bool{}
